@@ -36,6 +36,9 @@ made_sure_nextinline_is_null(parsec_dtd_task_t *current_task, int flow_index)
 {
     parsec_dtd_tile_t *tile = FLOW_OF(current_task, flow_index)->tile;
 
+#if defined(PARSEC_VERIF)
+    PARSEC_VERIF_YIELD(PARSEC_VERIF_SITE_DTD);
+#endif
     parsec_dtd_last_user_lock( &(tile->last_user) );
     parsec_mfence(); /* Write */
 
@@ -87,6 +90,9 @@ release_ownership_of_data(parsec_dtd_task_t *current_task, int flow_index)
 {
     parsec_dtd_tile_t *tile = FLOW_OF(current_task, flow_index)->tile;
 
+#if defined(PARSEC_VERIF)
+    PARSEC_VERIF_YIELD(PARSEC_VERIF_SITE_DTD);
+#endif
     parsec_dtd_last_user_lock( &(tile->last_user) );
     parsec_mfence(); /* Write */
 
@@ -292,6 +298,9 @@ parsec_dtd_ordering_correctly( parsec_execution_stream_t *es,
                     if(action_mask & PARSEC_ACTION_RELEASE_LOCAL_DEPS) {
                         if(parsec_dtd_task_is_local(current_desc)){
                            parsec_dtd_data_copy_reader_retain(current_task->super.data[current_dep].data_out);
+#if defined(PARSEC_VERIF)
+                           PARSEC_VERIF_YIELD(PARSEC_VERIF_SITE_DTD);
+#endif
                         }
                     }
                 } else {
